@@ -39,7 +39,7 @@ DENY = {
 # judged in the G-prim catalogue on gauge-safe inputs/selections, not by the generic battery templates
 GAUGE = {"eig", "eigh", "svd", "qr"}
 
-TEMPLATES = ["u", "b0", "b1", "bb", "k", "ax", "axn", "bT"]
+TEMPLATES = ["u", "b0", "b1", "bb", "k", "ax", "axn", "bT", "t2", "ll2"]
 XKINDS = ["vec", "mat", "spd", "t3"]
 
 
@@ -80,6 +80,12 @@ def template_args(t, x, y):
         return [x], {"axis": -1}, 0, None
     if t == "bT":
         return [x, onp.swapaxes(y, -1, -2) if onp.ndim(y) >= 2 else y], {}, 0, None
+    if t == "t2":
+        # the differentiated array as THIRD positional argument (upper bounds, fall-back values, ...)
+        return [y, y * 0.9 + 0.2, x], {}, 2, None
+    if t == "ll2":
+        # ... after a list of conditions and a list of choices (np.select's default)
+        return [[y > 1.0, y < 0.8], [y, y * 0.5], x], {}, 2, None
     raise ValueError(t)
 
 
